@@ -46,6 +46,27 @@ def _own_dtype(eng, a_, dtype):
     return is_obj(a_) and is_z(dtype) and z3.eq(dtype, eng.opaque_attr(a_, "dtype"))
 
 
+def _clip_minmax(eng, x, lo, hi):
+    """numpy / jax / torch: minimum(maximum(x, lo), hi), a None bound is no bound"""
+    if lo is None and hi is None:
+        return x
+    if hi is None:
+        return A(eng, "max2", x, lo)
+    if lo is None:
+        return A(eng, "min2", x, hi)
+    return A(eng, "clip", x, lo, hi)
+
+
+def _clip_maxmin(eng, x, lo, hi):
+    """tf.clip_by_value: maximum(minimum(x, hi), lo) - the lower bound wins.  With the tensor's own maximum (minimum) as a
+    bound the inner (outer) operation changes nothing: maximum(minimum(x, max x), lo) = maximum(x, lo)"""
+    if is_z(hi) and z3.eq(hi, A(eng, "max", x, None)):
+        return A(eng, "max2", x, lo)
+    if is_z(lo) and z3.eq(lo, A(eng, "min", x, None)):
+        return A(eng, "min2", x, hi)
+    return A(eng, "clip", x, lo, hi)        # for lo <= hi both orders agree
+
+
 def _seq(x):
     return tuple(x) if isinstance(x, (list, tuple)) else x
 
@@ -64,7 +85,9 @@ def library(eng):
             if nm in ("erf", "erfinv"):
                 continue
             L[f"{lib}.{nm}"] = (lambda op: lambda x: A(eng, op, x))(op)
-        L[f"{lib}.clip"] = lambda a_, a_min, a_max: A(eng, "clip", a_, a_min, a_max)
+        L[f"{lib}.clip"] = lambda a_, a_min=None, a_max=None: _clip_minmax(eng, a_, a_min, a_max)
+        L[f"{lib}.minimum"] = lambda x1, x2: A(eng, "min2", x1, x2)
+        L[f"{lib}.maximum"] = lambda x1, x2: A(eng, "max2", x1, x2)
         L[f"{lib}.tile"] = lambda A_, reps: A(eng, "tile", A_, _seq(reps))
         L[f"{lib}.where"] = lambda condition, x, y: A(eng, "where", condition, x, y)
         L[f"{lib}.sum"] = lambda a_, axis=None: A(eng, "sum", a_, axis)
@@ -88,7 +111,9 @@ def library(eng):
     # ---- torch
     for nm, op in unary.items():
         L[f"torch.{nm}"] = (lambda op: lambda input: A(eng, op, input))(op)
-    L["torch.clamp"] = lambda input, min=None, max=None: A(eng, "clip", input, min, max)
+    L["torch.clamp"] = lambda input, min=None, max=None: _clip_minmax(eng, input, min, max)
+    L["torch.minimum"] = lambda input, other: A(eng, "min2", input, other)
+    L["torch.maximum"] = lambda input, other: A(eng, "max2", input, other)
     L["torch.where"] = lambda condition, input, other: A(eng, "where", condition, input, other)
     L["torch.sum"] = lambda input, dim=None: A(eng, "sum", input, dim)
     L["torch.prod"] = lambda input, dim=None: A(eng, "prod", input, dim)
@@ -118,7 +143,11 @@ def library(eng):
     for nm, path in (("abs", "tensorflow.abs"), ("sqrt", "tensorflow.sqrt"), ("log", "tensorflow.math.log"), ("exp", "tensorflow.exp"),
                      ("isfinite", "tensorflow.math.is_finite"), ("erf", "tensorflow.math.erf"), ("erfinv", "tensorflow.math.erfinv")):
         L[path] = (lambda op: lambda x: A(eng, op, x))(nm)
-    L["tensorflow.clip_by_value"] = lambda t, clip_value_min, clip_value_max: A(eng, "clip", t, clip_value_min, clip_value_max)
+    L["tensorflow.clip_by_value"] = lambda t, clip_value_min, clip_value_max: _clip_maxmin(eng, t, clip_value_min, clip_value_max)
+    L["tensorflow.minimum"] = lambda x, y: A(eng, "min2", x, y)
+    L["tensorflow.maximum"] = lambda x, y: A(eng, "max2", x, y)
+    L["tensorflow.reduce_max"] = lambda input_tensor, axis=None: A(eng, "max", input_tensor, axis)
+    L["tensorflow.reduce_min"] = lambda input_tensor, axis=None: A(eng, "min", input_tensor, axis)
     L["tensorflow.tile"] = lambda input, multiples: A(eng, "tile", input, _seq(multiples))
     L["tensorflow.where"] = lambda condition, x=None, y=None: A(eng, "where", condition, x, y)
     L["tensorflow.reduce_sum"] = lambda input_tensor, axis=None: A(eng, "sum", input_tensor, axis)
@@ -174,6 +203,8 @@ def _specs(eng, S):
     dt = lambda name: Ext(DTYPES[S["backend"]][S["precision"]][name])
     T = [
         ("clip", [x, lo, hi], {}, lambda: A(eng, "clip", x, lo, hi)),
+        ("clip-floor-only", [x, lo, None], {}, lambda: A(eng, "max2", x, lo)),
+        ("clip-ceiling-only", [x, None, hi], {}, lambda: A(eng, "min2", x, hi)),
         ("where", [m, x, y], {}, lambda: A(eng, "where", m, x, y)),
         ("tile", [x, reps], {}, lambda: A(eng, "tile", x, reps)),
         ("gather", [x, idx], {}, lambda: eng.opaque_item(x, idx)),
@@ -338,7 +369,9 @@ def replay_backend_op(r):
             if got.shape != want.shape or not np.allclose(got.astype(float), want.astype(float), rtol=1e-12, atol=0, equal_nan=True):
                 bad[f"{bname}.{case}"] = {"got": got.tolist(), "expected": want.tolist()}
         cases = {
-            "clip": lambda: [cmp("clip(x, 0.7, 2.1)", N(tl.clip(Tn(x), 0.7, 2.1)), np.clip(x, 0.7, 2.1))],
+            "clip": lambda: [cmp("clip(x, 0.7, 2.1)", N(tl.clip(Tn(x), 0.7, 2.1)), np.clip(x, 0.7, 2.1)),
+                             cmp("clip(x, 0.7, None)", N(tl.clip(Tn(x), 0.7, None)), np.maximum(x, 0.7)), cmp("clip(x, None, 2.1)", N(tl.clip(Tn(x), None, 2.1)), np.minimum(x, 2.1)),
+                             cmp("clip([-2,-3], 0, None)", N(tl.clip(Tn([-2.0, -3.0]), 0.0, None)), [0.0, 0.0]), cmp("clip([5,7], None, 1)", N(tl.clip(Tn([5.0, 7.0]), None, 1.0)), [1.0, 1.0])],
             "where": lambda: [cmp("where(mask, x, y)", N(tl.where(Tn(mask, "bool"), Tn(x), Tn(y))), np.where(mask, x, y))],
             "tile": lambda: [cmp("tile(x, (2, 1))", N(tl.tile(Tn(x), (2, 1))), np.tile(x, (2, 1))), cmp("tile(x, (1, 3))", N(tl.tile(Tn(x), (1, 3))), np.tile(x, (1, 3)))],
             "gather": lambda: [cmp("gather(v, [2,0,3])", N(tl.gather(Tn(v), Tn(idx, "int"))), v[idx]), cmp("gather(x, [1,0])", N(tl.gather(Tn(x), Tn([1, 0], "int"))), x[[1, 0]])],
@@ -355,7 +388,7 @@ def replay_backend_op(r):
             "zeros": lambda: [cmp("zeros((2,3))", N(tl.zeros((2, 3))), np.zeros((2, 3))), cmp("zeros((3,), bool)", N(tl.zeros((3,), dtype="bool")), np.zeros((3,), dtype=bool)),
                               _dtype_case(bad, bname, "zeros", tl.zeros((2,)), tl), _dtype_case(bad, bname, "zeros-bool", tl.zeros((2,), dtype="bool"), tl, "bool")],
             "power": lambda: [cmp("power(y, x)", N(tl.power(Tn(y), Tn(x))), np.power(y, x))],
-            "sqrt": lambda: [cmp("sqrt", N(tl.sqrt(Tn(y))), np.sqrt(y))],
+            "sqrt": lambda: [cmp("sqrt", N(tl.sqrt(Tn(y))), np.sqrt(y)), cmp("sqrt(tiny)", N(tl.sqrt(Tn([0.0, 1e-300, 1e-20, 1e-9, 1e300]))), np.sqrt([0.0, 1e-300, 1e-20, 1e-9, 1e300]))],
             "divide": lambda: [cmp("divide(x, y)", N(tl.divide(Tn(x), Tn(y))), x / y)],
             "log": lambda: [cmp("log", N(tl.log(Tn(y))), np.log(y))],
             "exp": lambda: [cmp("exp", N(tl.exp(Tn(x))), np.exp(x))],
